@@ -34,6 +34,7 @@ def describe(ck):
     ck.rule("R05p", "an array that replaces msa->sequences receives no NULL slot: every record of the old array is carried over")
     ck.rule("R05r", "loops bounded by the length of an input line index that line, or a pointer at a known offset with the bound reduced by it, or test for the terminating NUL")
     ck.rule("R05s", "every function that (re)allocates msa_seq.gaps zeroes the counters up to exactly the allocated count")
+    ck.rule("R05u", "fclose(f) without a test of f is reachable neither from the failure branch of the fopen test nor from the entry without an assignment to f")
     ck.rule("R05t", "a va_list is consumed by at most one callee between va_start/va_copy and va_end on every path")
     ck.rule("R05j", "loop-carried appends X->buf[X->count]; X->count++ test count against capacity before the next element access")
     ck.rule("R05k", "a local pointer that aliases storage owned by a struct field is not passed to a releaser while the owner still holds it")
@@ -432,6 +433,7 @@ def run(ck, progs):
         ck.attempt(r05o, ck, prog)
         ck.attempt(r05s, ck, prog)
         ck.attempt(r05t, ck, prog)
+        ck.attempt(r05u, ck, prog)
         n = ck.attempt(r05r, ck, prog)
         ck.floor("R05r", n, 3, "line-length bounded accesses")
         ck.attempt(r05p, ck, prog)
@@ -2065,3 +2067,58 @@ def r05t(ck, prog):
                                          F.name, name, u2.callee, u.callee, u.line), prog.config)
                         break
     ck.floor("R05t", n, 3, "va_list variables")
+
+
+# --------------------------------------------------------------------------- R05u
+def r05u(ck, prog):
+    """fclose is never handed a NULL stream: a call fclose(f) that is not guarded by a test of f is reachable neither from the
+    failure branch of the `f = fopen(...)` test (where f is NULL) nor from the function entry without any assignment to f"""
+    n = 0
+    for F in prog.all_functions:
+        if F.body is None or F.cfg is None or "/tests/" in F.file:
+            continue
+        cfg = F.cfg
+        for c in F.body.calls("fclose"):
+            a0 = c.args[0].strip(casts=True) if c.args else None
+            if a0 is None or a0.k != "DeclRefExpr" or a0.d.get("dk") != "Var" or a0.d.get("g"):
+                continue
+            did, name = a0.d["did"], a0.d["name"]
+            n += 1
+            where = site(prog, c, "fclose(%s)" % name)
+            tested = False
+            for cond, pol in guards(c):
+                c0 = cond.strip(casts=True)
+                if c0.k == "DeclRefExpr" and c0.d.get("did") == did and pol:
+                    tested = True
+                if c0.k == "BinaryOperator" and c0.d["op"] == "!=" and any(r.d.get("did") == did for r in c0.find("DeclRefExpr")) and pol:
+                    tested = True
+            ck.inst("R05u", where, "%s: fclose(%s)%s" % (F.name, name, " under a test of the stream" if tested else ""), prog.config)
+            if tested:
+                continue
+            pc = cfg.position(c)
+            assigns = [a for a in F.body.find("BinaryOperator") if a.d["op"] == "=" and a.kids[0].strip().k == "DeclRefExpr"
+                       and a.kids[0].strip().d["did"] == did]
+            nonnull = [a for a in assigns if not (a.kids[1].strip(casts=True).cv == 0 or "NULL" in "".join(a.kids[1].strip(casts=True).mac))]
+            apos = [cfg.position(a) for a in nonnull]
+            apos = [x for x in apos if x is not None]
+            bad = None
+            # (a) the failure branch of `if ((f = fopen(..)) == NULL) { ...; goto ERROR; }`
+            for a in nonnull:
+                if not any(x.k == "CallExpr" and x.callee in ("fopen", "fdopen", "freopen", "tmpfile") for x in a.kids[1].walk()):
+                    continue
+                for ifs in F.body.find("IfStmt"):
+                    if not a.within(ifs.child("cond")):
+                        continue
+                    for g in ifs.child("then").find("GotoStmt"):
+                        gp = cfg.position(g)
+                        if gp is not None and pc is not None and cfg.reaches(gp, pc, avoid=apos):
+                            bad = "the failure branch of the fopen test at line %d (goto %s)" % (ifs.line, g.d["label"])
+            # (b) from the entry without any assignment of a stream
+            if bad is None and pc is not None and cfg.reaches(None, pc, avoid=apos) and not any(
+                    dd.get("did") == did and dd.get("init") is not None and False for s_ in F.body.find("DeclStmt") for dd in s_.d["decls"]):
+                bad = "the function entry, before any stream is assigned to %s" % name
+            if bad:
+                ck.violation("R05u", "R05u/%s/%s" % (F.name, name), where,
+                             "%s calls fclose(%s) on a path that comes from %s: %s is NULL there, fclose(NULL) crashes instead of the "
+                             "failure being reported" % (F.name, name, bad, name), prog.config)
+    ck.floor("R05u", n, 4, "fclose calls on local streams")
